@@ -94,7 +94,7 @@ def required_reach(tier: str) -> dict[str, int]:
     return {"connect.activation-types": 256, "connect.response-codes": 256, "connect.success": 100, "connect.denied": 100, "alive.phase.before-ack": 20,
             "alive.phase.blocked-in-read": 20, "alive.phase.idle": 20, "alive.phase.before-activation": 5, "data-before-ack": 20, "split.in-header": 50, "split.in-payload": 50,
             "bytewise": 10, "coalesced-frames": 20, "write.acked": 500, "write.nack-target-unreachable": 10, "write.nack-other": 10, "write.ack-timeout": 20,
-            "read.delivered": 500, "read.timeout": 50, "histories": 1000}
+            "read.delivered": 500, "read.timeout": 50, "histories": 1000, "burst-then-alive": 20, "concurrent-writers": 20}
 
 
 # ---- scenario -----------------------------------------------------------------------------------------
@@ -572,6 +572,27 @@ def run(ctx: Any, params: dict[str, Any]) -> None:
         return
     # random programs: several writes/reads/idle phases with injected frames in every phase
     for i in range(params["n"]):
+        if i % 25 == 0:
+            concurrent_writers(ctx, rng)
+        if i % 20 == 3:
+            # a burst of frames while the client is not reading (the read queue fills up), then an alive check, then everything is read
+            sc = base_scenario(rng)
+            uid = [0]
+            n = rng.choice([65, 66, 100, 300])
+            burst = []
+            d = 0.0
+            nd = 0
+            for _ in range(n):
+                d += 0.0005
+                l = rng.choice(["D", "D", "F", "K", "H"])
+                nd += l == "D"
+                burst.append((round(d, 5), letter_spec(rng, sc, l, uid)))
+            sc["ops"] = [{"op": "W", "data": "3e00", "react": [(0.001, ["ACK", None])]}, {"op": "idle", "dt": round(d + 0.05, 4), "arrive": burst},
+                         {"op": "idle", "dt": 0.9, "arrive": [(0.01, ["A"]), (0.3, ["A"])]}] + [{"op": "R", "timeout": 0.6} for _ in range(nd + 1)]
+            sc["drained"] = True
+            ctx.reach("burst-then-alive")
+            one(ctx, sc)
+            continue
         sc = base_scenario(rng)
         uid = [0]
         ops: list[dict[str, Any]] = []
@@ -614,11 +635,67 @@ def run(ctx: Any, params: dict[str, Any]) -> None:
             break
 
 
+async def _concurrent_writers(sc: dict[str, Any], latency: float) -> list[Any]:
+    from gallia.transports.doip import DoIPTransport
+
+    loop = asyncio.get_running_loop()
+    res: list[Any] = []
+
+    def factory(n: int) -> gateway.Gateway:
+        g = gateway.Gateway(split_client)
+
+        def on_frame(now: float, fr: bytes) -> None:
+            ptype = struct.unpack("!H", fr[2:4])[0]
+            if ptype == 0x0005:
+                g.send(0.01, f_rar(sc["ver"], sc["src"], sc["tgt"], 0x10), "RAR")
+            elif ptype == 0x8001:
+                g.send(latency, f_ack(sc["ver"], sc["tgt"], sc["src"], fr[12:]), "ACK")
+
+        g.on_client_frame = on_frame
+        return g
+
+    with gateway.GatewayHub(factory):
+        tr = await DoIPTransport.connect(uri(sc), timeout=5.0)
+
+        async def w(data: bytes) -> Any:
+            t0 = loop.time()
+            try:
+                await tr.write(data, timeout=None)
+                return ("ok", loop.time() - t0)
+            except BaseException as e:
+                return ("exc", type(e).__name__, loop.time() - t0)
+
+        res = list(await asyncio.gather(w(bytes.fromhex("22f190")), w(bytes.fromhex("22f191")), w(bytes.fromhex("22f192"))))
+        await tr.close()
+    return res
+
+
+def concurrent_writers(ctx: Any, rng: random.Random) -> None:
+    """three tasks write on one connection at once; the gateway acknowledges each message `latency` after receiving it. Each ack arrives
+    within the acknowledgement time of ITS message, so every write must complete (the time spent queued behind another writer does
+    not count against the acknowledgement time)."""
+    sc = base_scenario(rng)
+    latency = rng.choice([0.9, 1.4, 1.9])
+    ctx.case(("concurrent-writers", repr(sc), latency))
+    ctx.reach("concurrent-writers")
+    try:
+        res = vtime.run(_concurrent_writers(sc, latency))
+    except vtime.Deadlock:
+        ctx.violation("write/concurrent-writers/blocks-forever", "concurrent writes on one connection never complete", {"scenario": sc, "latency": latency})
+        return
+    if any(r[0] != "ok" for r in res):
+        ctx.violation("write/concurrent-writers/acked-but-fails", "a write that was acknowledged within the acknowledgement time of its own transmission failed because it had queued behind another writer",
+                      {"scenario": sc, "latency": latency, "results": res})
+
+
 def replay(ctx: Any, witness: dict[str, Any]) -> None:
     import gallia.command  # noqa: F401
 
     vtime.quiet_logging()
     sc = witness["scenario"]
+    if "latency" in witness:
+        concurrent_writers(ctx, random.Random(0))
+        return
     for o in sc["ops"]:
         for key in ("react", "arrive"):
             if key in o:
